@@ -227,6 +227,20 @@ def body_composite(case, ctx):
         for i, (g, e) in enumerate(zip(grads, allg)):
             if not np.array_equal(np.asarray(g), np.asarray(e)):
                 raise Violation(f"composite-gradient-order:{cls}", f"gradient {i} of the sum is not component gradient {i}")
+    # a composite that is reused as an operand must stay what it was: (A + B) + C and (A + B) + D built from the same A + B
+    if spec["k"] == "Sum" and len(spec["parts"]) >= 3:
+        parts = [rk.build_kernel(p) for p in spec["parts"]]
+        base = parts[0] + parts[1]
+        ext1 = base + parts[2]
+        ext2 = base + rk.build_kernel(spec["parts"][-1])
+        want_base = rk.n_params(spec["parts"][0], n, d) + rk.n_params(spec["parts"][1], n, d)
+        for name, obj, want in (("base", base, want_base), ("base + C", ext1, want_base + rk.n_params(spec["parts"][2], n, d)),
+                                ("base + D", ext2, want_base + rk.n_params(spec["parts"][-1], n, d))):
+            obj.pass_spatial_data(X)
+            if obj.n_params != want or len(obj.hyperpar_labels) != want:
+                raise Violation(f"composite-aliasing:{cls}", f"after forming (A + B) + C and (A + B) + D from one A + B, '{name}' has {obj.n_params} hyper-parameters "
+                                                             f"({len(obj.hyperpar_labels)} labels), expected {want}: operands of '+' are shared / modified")
+        ctx.event("aliasing-checked")
     ctx.nontrivial(spec["k"] in ("Sum", "CP"))
     events(case, ctx)
 
